@@ -164,11 +164,15 @@ pub fn normalize(e: &Expr, top: bool) -> Expr {
     }
     let n = out.len();
     for i in 0..n {
+        // (flag groups are not content: a tree wildcard behind leading flags still begins the
+        // concatenation)
+        let before = out[..i].iter().any(|t| !t.is_flag());
+        let after = out[i + 1..].iter().any(|t| !t.is_flag());
         if let Tok::Tree { lead, trail } = &mut out[i] {
-            if i > 0 {
+            if before {
                 *lead = true;
             }
-            if i + 1 < n {
+            if after {
                 *trail = true;
             }
         }
